@@ -891,118 +891,166 @@ def _cond_set(test: ast.AST) -> Set[str]:
     return {("" if truth else "not ") + src_of(t) for t, truth in _split(test, True)}
 
 
+def main_table(repo: Repo) -> Dict[str, Any]:
+    """Decision table of _main.main from the path engine: parse-error paths,
+    and for every assignment of the flags the single normal path."""
+    from .fold import by_name, lit_value
+    from .normal import V, show
+    from .pyflow import PyFlow
+
+    def build() -> Dict[str, Any]:
+        m = get_model(repo)
+        fi = m.func("bitproto/_main.py", "main")
+        flow = PyFlow(funcs={}, noreturn=("fatal", "os._exit", "sys.exit"), follow_handlers=True, havoc_on=(), pure=("str",))
+        paths = flow.run(fi.node)
+        parse_err, normal, render_err = [], [], []
+        for p in paths:
+            names = [(e.kind, e.name) for e in p.effects]
+            if ("call", "parse") not in names:
+                if any(k == "except" for k, _ in names):
+                    parse_err.append(p)
+                else:
+                    normal.append(p)
+                continue
+            ip = names.index(("call", "parse"))
+            if any(k == "except" for k, _ in names[ip + 1:]):
+                render_err.append(p)
+            else:
+                normal.append(p)
+        return {"fn": fi, "paths": paths, "parse_err": parse_err, "normal": normal, "render_err": render_err}
+
+    return repo.memo("main_table", build)
+
+
+FLAGS = ("enable_optimize", "disable_linter", "check", "lang", "filter_messages")
+
+
 @rule("A5", "main: render only after a successful parse; -F needs -O; check-only exit status; fatal exits non-zero")
 def a5(repo: Repo) -> RuleResult:
+    from itertools import product
+
+    from .fold import by_name, lit_value
+    from .normal import V, show
+    from .pyflow import PyFlow
+
     res = RuleResult("A5", floor=5)
     m = get_model(repo)
-    main = m.func("bitproto/_main.py", "main").node
     rel = "compiler/bitproto/_main.py"
-
-    calls = {"parse": [], "lint": [], "render": [], "fatal": []}
-    for n in ast.walk(main):
-        if isinstance(n, ast.Call) and isinstance(n.func, ast.Name) and n.func.id in calls:
-            calls[n.func.id].append(n)
-    if len(calls["parse"]) != 1 or len(calls["render"]) != 1:
-        res.unsure("A5: main does not contain exactly one parse( and one render( call")
+    try:
+        T = main_table(repo)
+    except Inconclusive as e:
+        res.unsure(f"A5: {e}")
         return res
-    pcall, rcall = calls["parse"][0], calls["render"][0]
+    line = T["fn"].node.lineno
 
-    # (1) parse inside try whose ParserError/IOError handlers always exit
-    tr = enclosing(pcall, ast.Try)
-    res.inst(part="parse-guard", call=src_of(pcall))
-    if tr is None:
-        res.bad(Finding("A5", rel, pcall.lineno, "main", src_of(pcall), "parse() is not inside a try: a parser error becomes a traceback instead of a diagnostic", tag="parse-no-try"))
-    else:
-        caught = {}
-        for h in tr.handlers:
-            names = [src_of(h.type)] if h.type is not None and not isinstance(h.type, ast.Tuple) else [src_of(e) for e in getattr(h.type, "elts", [])]
-            for nme in names:
-                caught[nme] = h
-        for need in ("ParserError",):
-            h = caught.get(need)
-            if h is None:
-                res.bad(Finding("A5", rel, tr.lineno, "main", "", f"{need} from parse() is not caught", tag=f"parse-{need}"))
-            elif not always_exits(h.body):
-                res.bad(Finding("A5", rel, h.lineno, "main", src_of(h), f"the {need} handler does not end the program: rendering continues after a rejected schema", witness="any invalid schema", tag=f"parse-{need}-continues"))
-            else:
-                # non-zero exit: fatal() not called with code=0
-                for c in ast.walk(h):
-                    if isinstance(c, ast.Call) and isinstance(c.func, ast.Name) and c.func.id == "fatal":
-                        for kw in c.keywords:
-                            if kw.arg == "code" and isinstance(kw.value, ast.Constant) and kw.value.value == 0:
-                                res.bad(Finding("A5", rel, c.lineno, "main", src_of(c), "a rejected schema exits with status 0", tag="parse-exit-0"))
-                        if len(c.args) > 1 and isinstance(c.args[1], ast.Constant) and c.args[1].value == 0:
-                            res.bad(Finding("A5", rel, c.lineno, "main", src_of(c), "a rejected schema exits with status 0", tag="parse-exit-0"))
-        if (rcall.lineno, rcall.col_offset) < (pcall.lineno, pcall.col_offset):
-            res.bad(Finding("A5", rel, rcall.lineno, "main", "", "render() precedes parse()", tag="render-before-parse"))
+    def bad(tag: str, msg: str, construct: str = "", witness: str = "") -> None:
+        if not any(f.tag == tag for f in res.findings):
+            res.bad(Finding("A5", rel, line, "main", construct, msg, witness=witness, tag=tag))
 
-    # (2) -F without -O refused before render
-    top = main.body
-    exits: List[Set[str]] = []
+    # (1) a parser error ends the program with a non-zero status, before lint / render
+    pe = T["parse_err"]
+    caught = sorted({t for p in pe for e in p.effects if e.kind == "except" for t in e.name.split(",")})
+    res.inst(part="parse-guard", handlers=caught, paths=len(pe))
+    if not any(e.kind == "call" and e.name == "parse" for p in T["paths"] for e in p.effects):
+        res.unsure("A5: main does not call parse()")
+        return res
+    if "ParserError" not in caught and "Exception" not in caught and "BaseException" not in caught:
+        if not pe:
+            bad("parse-no-try", "parse() is not inside a try: a parser error becomes a traceback instead of a diagnostic")
+        else:
+            bad("parse-ParserError", "ParserError from parse() is not caught")
+    for p in pe:
+        calls = [e for e in p.effects if e.kind == "call"]
+        if p.done != "exit":
+            bad("parse-ParserError-continues", "the handler of a parse error does not end the program: rendering continues after a rejected schema", construct=str([repr(e) for e in p.effects]), witness="any invalid schema")
+        if any(e.name in ("lint", "render") for e in calls):
+            bad("parse-ParserError-continues", "lint / render run on the path of a parse error", witness="any invalid schema")
+        for e in calls:
+            if e.name == "fatal":
+                code = e.kw.get("code", e.args[1] if len(e.args) > 1 else None)
+                if code is not None and code.const_value() == 0:
+                    bad("parse-exit-0", "a rejected schema exits with status 0", construct=repr(e))
 
-    def collect(stmts: List[ast.stmt], conds: Set[str]) -> None:
-        for st in stmts:
-            if (st.lineno, st.col_offset) >= (rcall.lineno, rcall.col_offset):
-                break
-            if isinstance(st, ast.If):
-                cs = conds | _cond_set(st.test)
-                if always_exits(st.body) and _calls_fatal(st.body):
-                    exits.append(cs)
-                else:
-                    collect(st.body, cs)
+    # (2)-(4) decision table over the flags
+    normal = T["normal"]
+    nrows = 0
+    for vals in product((0, 1), repeat=len(FLAGS)):
+        A = dict(zip(FLAGS, vals))
+        for lintres in (0, 1):
+            repl = by_name(A, {"lint": lintres})
+            feas = []
+            undecided = None
+            for p in normal:
+                ok = True
+                for k, t in p.guards:
+                    v = lit_value(k, t, repl)
+                    if v is None:
+                        undecided = (k, t)
+                    elif not v:
+                        ok = False
+                        break
+                if ok:
+                    feas.append(p)
+            if undecided is not None and len(feas) != 1:
+                from .pyflow import show_lit
 
-    collect(top, set())
-    res.inst(part="filter-needs-O", exit_guards=[sorted(e) for e in exits])
-    ok = any(e == {"not enable_optimize", "filter_messages"} for e in exits)
-    if not ok:
-        res.bad(Finding("A5", rel, rcall.lineno, "main", "", "no `fatal` guard for (-F given and -O absent) dominates render(): -F without -O is silently accepted", witness="bitproto c x.bitproto -F Foo", tag="filter-needs-O"))
-
-    # (3) language required
-    ok = any(e == {"not lang"} for e in exits)
-    res.inst(part="lang-required")
-    if not ok:
-        res.unsure("A5: guard `if not lang: fatal` not recognised")
-
-    # (4) check-only mode
-    chk = [st for st in top if isinstance(st, ast.If) and src_of(st.test) == "check"]
-    res.inst(part="check-only", blocks=len(chk))
-    if len(chk) != 1:
-        res.unsure("A5: `if check:` block not found at top level of main")
-    else:
-        c = chk[0]
-        if (c.lineno, 0) > (rcall.lineno, 0):
-            res.bad(Finding("A5", rel, c.lineno, "main", "", "check-only handling follows render()", tag="check-after-render"))
-        if not (c.body and isinstance(c.body[-1], ast.Return)):
-            res.bad(Finding("A5", rel, c.lineno, "main", src_of(c), "check-only mode does not return before rendering", witness="bitproto -c x.bitproto writes files", tag="check-no-return"))
-        inner = [st for st in c.body if isinstance(st, ast.If)]
-        good = False
-        for st in inner:
-            t = st.test
-            if isinstance(t, ast.Compare) and src_of(t.left) == "lint_warnings" and len(t.ops) == 1 and _calls_fatal(st.body):
-                k = t.comparators[0]
-                if isinstance(k, ast.Constant) and ((isinstance(t.ops[0], ast.Gt) and k.value == 0) or (isinstance(t.ops[0], ast.GtE) and k.value == 1) or (isinstance(t.ops[0], ast.NotEq) and k.value == 0)):
-                    good = True
-            if src_of(t) == "lint_warnings" and _calls_fatal(st.body):
-                good = True
-        if not good:
-            res.bad(Finding("A5", rel, c.lineno, "main", src_of(c), "check-only mode does not exit non-zero exactly when there is at least one lint warning", witness="bitproto -c on a schema with one warning / with none", tag="check-exit"))
-        # lint_warnings is the return of lint(proto), 0 when disabled
-        la = [n for n in ast.walk(main) if isinstance(n, ast.Assign) and any(src_of(t) == "lint_warnings" for t in n.targets)]
-        vals = sorted(src_of(a.value) for a in la)
-        if vals != ["0", "lint(proto)"]:
-            res.unsure(f"A5: lint_warnings assignments are {vals}")
+                res.unsure(f"A5: main: condition `{show_lit(*undecided)}` is not decided by the command-line flags and the lint result")
+                return res
+            nrows += 1
+            if len(feas) != 1:
+                res.unsure(f"A5: main: {len(feas)} paths for flags {A}, lint result {lintres}")
+                return res
+            p = feas[0]
+            calls = [e for e in p.effects if e.kind == "call"]
+            names = [e.name for e in calls]
+            n_lint, n_render = names.count("lint"), names.count("render")
+            want_lint = 0 if A["disable_linter"] else 1
+            if names.count("parse") != 1 or (n_render and names.index("render") < names.index("parse")):
+                bad("render-before-parse", "render() does not follow exactly one parse()", construct=str(names))
+            if n_lint != want_lint:
+                bad("lint-call", f"lint() is called {n_lint} times with disable_linter={bool(A['disable_linter'])}", construct=str(names))
+            if A["check"]:
+                if n_render:
+                    bad("check-no-return", "check-only mode does not return before rendering", construct=str(names), witness="bitproto -c x.bitproto writes files")
+                want_exit = bool(want_lint and lintres > 0)
+                if (p.done == "exit") != want_exit:
+                    bad("check-exit", "check-only mode does not exit non-zero exactly when there is at least one lint warning", construct=f"flags {A}, lint result {lintres}: ends with {p.done}", witness="bitproto -c on a schema with one warning / with none")
+                continue
+            if not A["lang"]:
+                if p.done != "exit" or n_render:
+                    res.unsure("A5: guard `if not lang: fatal` not recognised")
+                continue
+            if (not A["enable_optimize"]) and A["filter_messages"]:
+                if p.done != "exit" or n_render:
+                    bad("filter-needs-O", "no `fatal` guard for (-F given and -O absent) dominates render(): -F without -O is silently accepted", construct=f"flags {A}: {names}", witness="bitproto c x.bitproto -F Foo")
+                continue
+            if n_render != 1 or p.done != "return":
+                bad("render-missing", f"with flags {A} the schema is not rendered exactly once ({names}, ends with {p.done})", construct=str(names))
+    res.inst(part="decision-table", flags=list(FLAGS), rows=nrows, normal_paths=len(normal))
+    res.inst(part="filter-needs-O", rows=nrows)
+    res.inst(part="lang-required", rows=nrows)
+    res.inst(part="check-only", rows=nrows)
+    for p in T["render_err"]:
+        if p.done != "exit":
+            bad("render-error-continues", "a renderer error does not end the program with a diagnostic", construct=str([repr(e) for e in p.effects][-3:]))
 
     # (5) fatal ends in os._exit with non-zero default
     fat = m.func("bitproto/utils.py", "fatal").node
-    res.inst(part="fatal", body=[src_of(s)[:60] for s in fat.body])
-    last = fat.body[-1]
-    ok = isinstance(last, ast.Expr) and isinstance(last.value, ast.Call) and src_of(last.value.func) in ("os._exit", "sys.exit") and last.value.args and src_of(last.value.args[0]) == "code"
+    fl = PyFlow(funcs={}, noreturn=("os._exit", "sys.exit", "_exit", "exit"), havoc_on=())
+    params = [a.arg for a in fat.args.args]
+    ok = True
+    why = ""
+    for p in fl.run(fat):
+        ex = [e for e in p.effects if e.kind == "call" and e.name in ("_exit", "exit")]
+        if p.done != "exit" or not ex or not ex[-1].args or show(ex[-1].args[0]) != "code":
+            ok, why = False, f"path under {p.guard_text()} ends with {p.done} / {[repr(e) for e in p.effects][-1:]}"
     dflt = None
-    for a, d in zip(reversed(fat.args.args), reversed(fat.args.defaults)):
-        if a.arg == "code" and isinstance(d, ast.Constant):
-            dflt = d.value
+    for a_, d_ in zip(reversed(fat.args.args), reversed(fat.args.defaults)):
+        if a_.arg == "code" and isinstance(d_, ast.Constant):
+            dflt = d_.value
+    res.inst(part="fatal", ok=ok, default_code=dflt)
     if not ok or not dflt:
-        res.bad(Finding("A5", "compiler/bitproto/utils.py", fat.lineno, "fatal", src_of(last), f"fatal() must end the process with its non-zero `code` (default {dflt})", tag="fatal"))
+        res.bad(Finding("A5", "compiler/bitproto/utils.py", fat.lineno, "fatal", why, f"fatal() must end the process with its non-zero `code` (default {dflt})", tag="fatal"))
     return res
 
 
@@ -1212,39 +1260,80 @@ def a9(repo: Repo) -> RuleResult:
     res.inst(part="parser-ctor", where="Parser.__init__")
     if not any(isinstance(n, ast.Assign) and src_of(n.targets[0]) == "self.traditional_mode" and src_of(n.value) == "traditional_mode" for n in ast.walk(init)):
         res.bad(Finding("A9", pmod.rel, init.lineno, "Parser.__init__", "", "self.traditional_mode is not set from the constructor argument", tag="Parser.__init__:traditional_mode"))
-    # main
-    main = m.func("bitproto/_main.py", "main").node
-    tm = [n for n in ast.walk(main) if isinstance(n, ast.Assign) and src_of(n.targets[0]) == "traditional_mode"]
-    pc = [n for n in ast.walk(main) if isinstance(n, ast.Call) and isinstance(n.func, ast.Name) and n.func.id == "parse"]
-    res.inst(part="main", traditional_mode=[src_of(t.value) for t in tm])
-    passed = None
-    if pc:
-        kws = {k.arg: k.value for k in pc[0].keywords}
-        passed = src_of(kws["traditional_mode"]) if "traditional_mode" in kws else (src_of(pc[0].args[1]) if len(pc[0].args) > 1 else None)
-    value = passed
-    if passed == "traditional_mode" and len(tm) == 1:
-        value = src_of(tm[0].value)
-    if value not in ("enable_optimize and (not check)", "enable_optimize and not check", "enable_optimize", "(not check) and enable_optimize", "not check and enable_optimize"):
-        res.bad(Finding("A9", "compiler/bitproto/_main.py", main.lineno, "main", str(value), "parse() does not receive traditional_mode = (-O given [and not check-only])", witness="bitproto c x.bitproto -O on an extensible schema generates code", tag="main:traditional_mode"))
-    # render call passes the three -O related arguments
-    rc = [n for n in ast.walk(main) if isinstance(n, ast.Call) and isinstance(n.func, ast.Name) and n.func.id == "render"]
-    if rc:
-        kws = {k.arg: src_of(k.value) for k in rc[0].keywords}
-        res.inst(part="main", render_kwargs=kws)
-        for k, want in (("optimization_mode", "enable_optimize"), ("optimization_mode_filter_messages", "filter_messages"), ("optimization_mode_endian", "endian")):
-            if kws.get(k) != want:
-                res.bad(Finding("A9", "compiler/bitproto/_main.py", rc[0].lineno, "main", short(src_of(rc[0]), 140), f"render() receives {k}={kws.get(k)} instead of {want}", tag=f"main:render:{k}"))
+    # main: what parse() and render() receive on every normal path
+    from .fold import by_name, replace_atoms
+    from .normal import V, show
+    from .pyflow import PyFlow
+
+    try:
+        T = main_table(repo)
+        seen_parse = seen_render = 0
+        for p in T["normal"]:
+            flags: Dict[str, Optional[bool]] = {}
+            for k, t in p.guards:
+                if k[0] == "truthy" and show(k[1]) in FLAGS:
+                    flags[show(k[1])] = t
+            for e in p.effects:
+                if e.kind != "call":
+                    continue
+                if e.name == "parse":
+                    seen_parse += 1
+                    v = e.kw.get("traditional_mode", e.args[1] if len(e.args) > 1 else None)
+                    opt, chk = flags.get("enable_optimize"), flags.get("check")
+                    okv = False
+                    if v is not None:
+                        cv = v.const_value()
+                        if cv is not None and opt is not None:
+                            okv = bool(cv) == opt or (chk is not None and bool(cv) == (opt and not chk))
+                        elif show(v) == "enable_optimize":
+                            okv = True
+                    if not okv:
+                        res.bad(Finding("A9", "compiler/bitproto/_main.py", T["fn"].node.lineno, "main", repr(e), f"parse() does not receive traditional_mode = (-O given [and not check-only]) on the path under {p.guard_text()}", witness="bitproto c x.bitproto -O on an extensible schema generates code", tag="main:traditional_mode"))
+                if e.name == "render":
+                    seen_render += 1
+                    for k_, want in (("optimization_mode", "enable_optimize"), ("optimization_mode_filter_messages", "filter_messages"), ("optimization_mode_endian", "endian")):
+                        v = e.kw.get(k_)
+                        okv = v is not None and (show(v) == want or (v.const_value() is not None and flags.get(want) is not None and bool(v.const_value()) == flags.get(want)))
+                        if not okv:
+                            res.bad(Finding("A9", "compiler/bitproto/_main.py", T["fn"].node.lineno, "main", repr(e)[:160], f"render() receives {k_}={show(v) if v is not None else None} instead of {want}", tag=f"main:render:{k_}"))
+        res.inst(part="main", parse_calls=seen_parse, render_calls=seen_render)
+        if not seen_parse or not seen_render:
+            res.unsure("A9: main: parse / render calls not found on the normal paths")
+    except Inconclusive as e:
+        res.unsure(f"A9: main: {e}")
     # render() -> renderer_cls(...) forwards them
-    rf = m.func("renderer/__init__.py", "render").node
-    ctor = [n for n in ast.walk(rf) if isinstance(n, ast.Call) and isinstance(n.func, ast.Name) and n.func.id == "renderer_cls"]
-    res.inst(part="render", ctors=len(ctor))
-    if len(ctor) != 1:
+    rfi = m.func("renderer/__init__.py", "render")
+    flow = PyFlow(funcs={}, havoc_on=())
+
+    def all_calls(p_: Any) -> List[Any]:
+        out = []
+        for e in p_.effects:
+            if e.kind == "call":
+                out.append(e)
+            elif e.kind == "loop":
+                for sp in e.sub or []:
+                    out.extend(all_calls(sp))
+        return out
+
+    ctors = []
+    try:
+        for p in flow.run(rfi.node):
+            for e in all_calls(p):
+                if "optimization_mode" in e.kw or "**" in e.kw:
+                    ctors.append(e)
+    except Inconclusive as e:
+        res.unsure(f"A9: render(): {e}")
+    res.inst(part="render", ctors=len(ctors))
+    if not ctors:
         res.unsure("A9: renderer construction in render() not recognised")
-    else:
-        kws = {k.arg: src_of(k.value) for k in ctor[0].keywords}
-        for k in ("optimization_mode", "optimization_mode_filter_messages", "optimization_mode_endian"):
-            if kws.get(k) != k:
-                res.bad(Finding("A9", "compiler/bitproto/renderer/__init__.py", ctor[0].lineno, "render", short(src_of(ctor[0]), 140), f"the renderer is constructed with {k}={kws.get(k)}", tag=f"render:{k}"))
+    for e in ctors:
+        if "**" in e.kw:
+            res.unsure(f"A9: render(): keyword arguments of `{repr(e)[:100]}` come from a mapping that is not a literal")
+            continue
+        for k_ in ("optimization_mode", "optimization_mode_filter_messages", "optimization_mode_endian"):
+            v = e.kw.get(k_)
+            if v is None or show(v) != k_:
+                res.bad(Finding("A9", "compiler/bitproto/renderer/__init__.py", rfi.node.lineno, "render", repr(e)[:160], f"the renderer is constructed with {k_}={show(v) if v is not None else None}", tag=f"render:{k_}"))
     # Renderer.__init__ calls check unconditionally after setting the flag
     ri = m.func("renderer/renderer.py", "Renderer.__init__").node
     stmts = [src_of(s) for s in ri.body]
